@@ -1,6 +1,6 @@
 SPECIFICATION TraceSpec
 CONSTANTS
-  MaxErrs = 16
+  MaxErrs = 1024
   Faulty <- MCFalse
   StrictSink <- MCStrictSink
 INVARIANTS TraceInv TraceTotal
